@@ -452,6 +452,14 @@ func c07Options() []c07Opt {
 	}
 }
 
+// c07Watchdog: the client timeout is 10 s per attempt; the "everything" option set retries once.
+func c07Watchdog(opt string) time.Duration {
+	if opt == "everything" {
+		return 35 * time.Second
+	}
+	return 15 * time.Second
+}
+
 func c07CPU() time.Duration {
 	var ru syscall.Rusage
 	syscall.Getrusage(syscall.RUSAGE_SELF, &ru)
@@ -555,9 +563,9 @@ func TestVerif_C07_h1hostile(t *testing.T) {
 			default:
 				s.Observe(id, true, "", len(tags) > 0, human, "")
 			}
-		case <-time.After(15 * time.Second):
+		case <-time.After(c07Watchdog(opts[oi].name)):
 			s.Count("wedged")
-			s.Observe(id, false, class, true, human, "call did not return within 15 s although the peer closed the connection and the client timeout is 10 s")
+			s.Observe(id, false, class, true, human, "call did not return within the watchdog bound (15 s per attempt) although the peer closed the connection and the client timeout is 10 s per attempt")
 			wedges++
 			mk(oi)
 		}
@@ -635,7 +643,8 @@ func c07HasUnsupportedCE(resp []byte) bool {
 			return true
 		}
 	}
-	return false
+	// an obs-fold continuation line may extend the value (hostile streams contain those)
+	return bytes.Contains(resp, []byte("\n\t")) || bytes.Contains(resp, []byte("\n ")) && bytes.Contains(bytes.ToLower(resp), []byte("content-encoding"))
 }
 
 // TestVerif_C07_budget: endless inputs must be cut off by the configured limits: the client
